@@ -432,6 +432,10 @@ func doDec4(args []vlib.Sx) (res result, err error) {
 	res.impl = vlib.Str(pairsOf4(got))
 	res.nontrivial = true
 	res.labels = append(res.labels, "dec4:ok", sizeLabel("entries4", len(got)))
+	if d := beyondBMP(got); d != "" {
+		res.fail, res.sig = d, "c09-lookup-beyond-bmp"
+		return res, nil
+	}
 	// oracle: the accepted table decodes to the mapping the specification
 	// defines.  Tolerated by the decoder and by this oracle: a final segment
 	// 0xFFFF..0xFFFF whose idRangeOffset points outside the glyphIdArray is
